@@ -330,21 +330,26 @@ theorem generated_sizes_ok : SizesOk Exa.Generated.FlowTable.sizeOf := by
     `Flow.pack_nlri` as modelled (dict by ID, `sorted`, EOL rewrite, width by encoder class of the
     generated table) emits exactly the reference encoding of the rule the text denotes, in the
     family of its prefixes. -/
-theorem exa_pack_reference (v6 : Bool) (rd : Option Bytes) (text : List TComp) (hg : GoodText v6 text)
+theorem exa_pack_reference (v6 hint6 : Bool) (rd : Option Bytes) (text : List TComp) (hg : GoodText v6 text)
     (hlen : (nlriPayload ⟨rd, toRule v6 text⟩).length ≤ 4095) :
-    exaPack Exa.Generated.FlowTable.sizeOf rd text
-      = .ok (text.any (fun c => c.isV6), encodeNlri ⟨rd, toRule v6 text⟩) :=
-  exaPack_good _ v6 rd text generated_sizes_ok hg hlen
+    exaPack Exa.Generated.FlowTable.sizeOf hint6 rd text
+      = .ok (exaFamily hint6 text, encodeNlri ⟨rd, toRule v6 text⟩) :=
+  exaPack_good _ v6 hint6 rd text generated_sizes_ok hg hlen
+
+/-- … in the family of its prefixes when it has one (without a prefix: IPv6 iff an IPv6-only keyword is used) -/
+theorem exa_pack_family (v6 hint6 : Bool) (text : List TComp) (hg : GoodText v6 text)
+    (hp : text.any (fun c => c.isPrefix) = true) : exaFamily hint6 text = v6 :=
+  exaFamily_good v6 hint6 text hg.comps hp
 
 /-- **What is sent means what was written.** Under the same hypotheses the RFC reference decoder
     applied to the bytes ExaBGP's encoder emits (followed by anything) returns the rule as written
     in text, the route distinguisher as written, and consumes exactly the NLRI. -/
-theorem exa_pack_meaning (v6 vpn : Bool) (rd : Option Bytes) (text : List TComp) (rest : Bytes)
+theorem exa_pack_meaning (v6 vpn hint6 : Bool) (rd : Option Bytes) (text : List TComp) (rest : Bytes)
     (hg : GoodText v6 text) (hlen : (nlriPayload ⟨rd, toRule v6 text⟩).length ≤ 4095)
     (hrd : if vpn then ∃ b, rd = some b ∧ b.length = 8 else rd = none) :
-    ∃ fam bs, exaPack Exa.Generated.FlowTable.sizeOf rd text = .ok (fam, bs) ∧
+    ∃ fam bs, exaPack Exa.Generated.FlowTable.sizeOf hint6 rd text = .ok (fam, bs) ∧
       decodeNlri v6 vpn (bs ++ rest) = .ok (⟨rd, toRule v6 text⟩, rest) := by
-  refine ⟨_, _, exa_pack_reference v6 rd text hg hlen, ?_⟩
+  refine ⟨_, _, exa_pack_reference v6 hint6 rd text hg hlen, ?_⟩
   apply nlri_roundtrip'
   exact ⟨toRule_wf v6 text hg, by omega, hrd⟩
 
@@ -418,7 +423,7 @@ example : GoodText false sampleText := by
             rw [e]; rfl
     rcases this with e | e | e <;> rw [e] at hp <;> simp at hp <;> subst hp <;> decide
 
-example : exaPack Exa.Generated.FlowTable.sizeOf none sampleText
+example : exaPack Exa.Generated.FlowTable.sizeOf false none sampleText
     = .ok (false, [17, 1, 24, 10, 0, 0, 3, 0x81, 6, 5, 0x01, 80, 0x12, 4, 0, 0xd4, 8, 0]) := by decide
 example : toRule false sampleText =
     [.prefix4 1 24 0x0A0000, .ops 3 [⟨false, false, false, true, 6⟩],
@@ -428,13 +433,12 @@ example : toRule false sampleText =
     code by the correspondence run and reported by the oracle) -/
 
 /-- IPv6 offset: `destination 2001:db8::/64/32` is written with 8 address bytes; RFC 8956 carries the 32 pattern bits -/
-example : exaPack Exa.Generated.FlowTable.sizeOf none [.prefix6 1 0x20010db8000000000000000000000000 64 32]
+example : exaPack Exa.Generated.FlowTable.sizeOf false none [.prefix6 1 0x20010db8000000000000000000000000 64 32]
     = .ok (true, [11, 1, 64, 32, 0x20, 0x01, 0x0d, 0xb8, 0, 0, 0, 0]) ∧
     encodeNlri ⟨none, toRule true [.prefix6 1 0x20010db8000000000000000000000000 64 32]⟩ = [7, 1, 64, 32, 0, 0, 0, 0] := by
   decide
-/-- a prefix of the other family is silently dropped by `Flow.add`: the rule sent is broader than written -/
-example : exaPack Exa.Generated.FlowTable.sizeOf none [.prefix4 2 0x0A000000 8, .prefix6 1 0x20010db8000000000000000000000000 32 0]
-    = .ok (false, [3, 2, 8, 10]) := by decide
+/-- `next-header tcp` alone is an IPv6 route -/
+example : exaPack Exa.Generated.FlowTable.sizeOf true none [.op 3 1 6] = .ok (true, [3, 3, 0x81, 6]) := by decide
 /-- formerly findings, now as the RFC wants them: 4095 bytes is `ff ff`; a flow-vpn NLRI shorter
     than a route distinguisher is invalid -/
 example : exaEncodeLength 4095 = .ok [255, 255] := by decide
